@@ -1,6 +1,6 @@
 ---- MODULE MC_Refs ----
 EXTENDS Refs
-KAll == {"param", "paramw", "bind1", "bind2", "rx", "nested"}
+KAll == {"param", "paramw", "bind1", "meth", "bind2", "rx", "nested"}
 KBasic == {"param", "bind1", "nested"}
 AUpd == {"source", "updctx", "ref"}
 AAll == {"source", "ref", "plain", "updctx"}
